@@ -188,6 +188,15 @@ class Ctx:
         path = os.path.join(d, name + ".v")
         with open(path, "w") as f:
             f.write(text)
+        # the model files the text requires may not be among the dependencies of
+        # this property's statements file: build them (no-op when up to date)
+        mods = set()
+        for line in re.findall(r'(?m)^From Martian Require Import (.*)\.[ \t]*$', text):
+            for m in line.split():
+                mods.add(m.replace(".", "/") + ".vo")
+        if mods:
+            with Lock():
+                run(["make", "-C", COQ, "-j16"] + sorted(mods), timeout=timeout)
         p = run(["coqc", "-Q", COQ, "Martian", path], timeout=timeout, cwd=d)
         return p.returncode, p.stdout
 
